@@ -16,6 +16,13 @@
 (* ConditionalRemover run up to and including the trigger at which their   *)
 (* condition (asked exactly once per trigger, before the listener) holds - *)
 (* the harness's condition holds at its second evaluation (C16).           *)
+(* MixinHeterFilter (C12, heterogeneous dispatcher): before the listeners, *)
+(* a dispatch of prototype p runs the filters registered for p in the      *)
+(* order they were added, each sees the current argument value, a change   *)
+(* it makes (behaviour 1: +10 on an int argument) is seen by later filters *)
+(* and by the listeners, the first false verdict (behaviour 2: the value   *)
+(* is odd) ends the dispatch; removed filters and filters of other         *)
+(* prototypes do not run.                                                  *)
 (***************************************************************************)
 EXTENDS Naturals, Sequences, FiniteSets, TLC, Json, IOUtils
 
@@ -26,10 +33,10 @@ Accepts == <<1, 2, 2, 3, 4, 5, 2>>
 Callable == <<{1}, {2}, {3}, {4}, {5}, {2, 5}>>
 HasPayload(p) == p \in {3, 4, 5}
 
-VARIABLES lst, kind, pending, exp, proc, ncb, l
-vars == <<lst, kind, pending, exp, proc, ncb, l>>
+VARIABLES lst, kind, pending, exp, proc, ncb, flt, fkd, l
+vars == <<lst, kind, pending, exp, proc, ncb, flt, fkd, l>>
 NoProc == [on |-> FALSE, mode |-> 0, shape |-> 0, seen |-> {}, hit |-> FALSE, cur |-> 0, any |-> FALSE]
-Init == lst = [p \in Protos |-> <<>>] /\ kind = <<>> /\ pending = <<>> /\ exp = <<>> /\ proc = NoProc /\ ncb = 0 /\ l = 1
+Init == flt = [p \in Protos |-> <<>>] /\ fkd = <<>> /\ lst = [p \in Protos |-> <<>>] /\ kind = <<>> /\ pending = <<>> /\ exp = <<>> /\ proc = NoProc /\ ncb = 0 /\ l = 1
 E == TraceLog[l]
 Is(e) == l <= Len(TraceLog) /\ E.e = e /\ l' = l + 1
 InSeq(s, x) == \E i \in 1..Len(s) : s[i] = x
@@ -74,10 +81,24 @@ EvPrependCond == Is("qk") /\ Add(1, 1, CondK)
 EvInsertCond == Is("ik") /\ Add(1, 2, CondK)
 EvRemove == /\ Is("rl") /\ Idle /\ E.r = (IF \E p \in Protos : InSeq(lst[p], E.a) THEN 1 ELSE 0)
             /\ lst' = [p \in Protos |-> Without(lst[p], E.a)] /\ UNCHANGED <<kind, pending, exp, proc, ncb>> /\ Ledger
+\* the filters of prototype p applied to value v: the calls owed (<<2, filter, p, value seen>>), the value afterwards, whether all passed
+RECURSIVE Filtered(_,_,_)
+Filtered(fs, p, v) == IF fs = <<>> THEN [exp |-> <<>>, v |-> v, pass |-> TRUE]
+                      ELSE LET f == Head(fs)  me == << <<2, f, p, v>> >> IN
+                           IF fkd[f] = 2 /\ v % 2 = 1 THEN [exp |-> me, v |-> v, pass |-> FALSE]
+                           ELSE LET r == Filtered(Tail(fs), p, IF fkd[f] = 1 /\ p = 2 THEN v + 10 ELSE v) IN [exp |-> me \o r.exp, v |-> r.v, pass |-> r.pass]
 \* invocation / dispatch with argument shape E.a and value E.u
 EvInvokeBegin == /\ Is("ib") /\ Idle
-                 /\ LET p == Accepts[E.a]  t == Trig(p, lst, kind) IN exp' = OwesOf(lst[p], p, E.u, kind) /\ lst' = t.ls /\ kind' = t.kd
+                 /\ LET p == Accepts[E.a]  f == Filtered(flt[p], p, IF p = 1 THEN 0 ELSE E.u)  t == Trig(p, lst, kind) IN
+                    IF f.pass THEN exp' = f.exp \o OwesOf(lst[p], p, f.v, kind) /\ lst' = t.ls /\ kind' = t.kd
+                    ELSE exp' = f.exp /\ UNCHANGED <<lst, kind>>
                  /\ UNCHANGED <<pending, proc, ncb>>
+EvFilterAsked == /\ Is("fq") /\ exp # <<>> /\ Head(exp) = <<2, E.a, E.o, E.u>> /\ exp' = Tail(exp) /\ UNCHANGED <<lst, kind, pending, proc, ncb, flt, fkd>>
+\* a filter of prototype E.a (behaviour E.u) is added: it must be bound to that prototype's filter list (E.b); a filter is removed
+EvAppendFilter == /\ Is("af") /\ Idle /\ E.a \in Protos /\ E.b = E.a /\ E.r = Len(fkd) + 1 /\ E.u \in 0..2
+                  /\ flt' = [flt EXCEPT ![E.a] = Append(@, Len(fkd) + 1)] /\ fkd' = Append(fkd, E.u) /\ UNCHANGED <<lst, kind, pending, exp, proc, ncb>>
+EvRemoveFilter == /\ Is("rf") /\ Idle /\ E.r = (IF \E p \in Protos : InSeq(flt[p], E.a) THEN 1 ELSE 0)
+                  /\ flt' = [p \in Protos |-> Without(flt[p], E.a)] /\ UNCHANGED <<lst, kind, pending, exp, proc, ncb, fkd>>
 EvEnter == /\ Is("en") /\ exp # <<>> /\ Head(exp) = <<0, E.a, E.o, E.u>> /\ E.b = 1 /\ exp' = Tail(exp) /\ UNCHANGED <<lst, kind, pending, proc, ncb>>
 EvCondAsked == /\ Is("cq") /\ exp # <<>> /\ Head(exp) = <<1, E.a, E.o, E.u>> /\ exp' = Tail(exp) /\ UNCHANGED <<lst, kind, pending, proc, ncb>>
 EvInvokeEnd == /\ Is("ie") /\ exp = <<>> /\ ~proc.on /\ UNCHANGED <<lst, kind, pending, exp, proc, ncb>> /\ Ledger
@@ -111,10 +132,11 @@ EvPredEnd == /\ Is("qe") /\ proc.on /\ proc.cur # 0
 EvProcessEnd == /\ Is("pe") /\ proc.on /\ proc.cur = 0 /\ exp = <<>> /\ E.a = proc.mode /\ E.r = (IF proc.any THEN 1 ELSE 0)
                 /\ proc' = NoProc /\ UNCHANGED <<lst, kind, pending, exp, ncb>> /\ Ledger
 EvReset == /\ Is("rs") /\ Idle /\ E.lv = 0 /\ E.pv = 0
-           /\ lst' = [p \in Protos |-> <<>>] /\ kind' = <<>> /\ pending' = <<>> /\ exp' = <<>> /\ proc' = NoProc /\ ncb' = 0
+           /\ flt' = [p \in Protos |-> <<>>] /\ fkd' = <<>> /\ lst' = [p \in Protos |-> <<>>] /\ kind' = <<>> /\ pending' = <<>> /\ exp' = <<>> /\ proc' = NoProc /\ ncb' = 0
 
-Next == EvAppend \/ EvPrepend \/ EvInsert \/ EvAppendCtr \/ EvPrependCtr \/ EvInsertCtr \/ EvAppendCond \/ EvPrependCond \/ EvInsertCond \/ EvCondAsked \/ EvRemove \/ EvInvokeBegin \/ EvEnter \/ EvInvokeEnd \/ EvEnqueue
-        \/ EvProcessBegin \/ EvPredBegin \/ EvPredEnd \/ EvProcessEnd \/ EvReset
+Next == \/ ((EvAppend \/ EvPrepend \/ EvInsert \/ EvAppendCtr \/ EvPrependCtr \/ EvInsertCtr \/ EvAppendCond \/ EvPrependCond \/ EvInsertCond \/ EvCondAsked \/ EvRemove
+             \/ EvInvokeBegin \/ EvEnter \/ EvInvokeEnd \/ EvEnqueue \/ EvProcessBegin \/ EvPredBegin \/ EvPredEnd \/ EvProcessEnd) /\ UNCHANGED <<flt, fkd>>)
+        \/ EvFilterAsked \/ EvAppendFilter \/ EvRemoveFilter \/ EvReset
 Report == IF TLCGet("stats").diameter - 1 = Len(TraceLog) THEN TRUE
           ELSE PrintT(<<"REJECTED", TLCGet("stats").diameter, Len(TraceLog)>>) /\ FALSE
 =============================================================================
